@@ -231,6 +231,38 @@ def binding_b(ctx, proto, drv, nhist=60, nmsgs=6, want_json=False):
     else:
         ctx.traces_validated += len(jobs)
     ctx.sample({"binding": "B", "proto": proto, "message": jobs[0]["msgs"][-1]})
+    # the same per-element histories with the BUILT-IN table only (no information-element file installed: the default)
+    bjobs = []
+    for variant in ("own", "reduced"):
+        ph = g.per_element(variant)
+        for i in range(0, len(ph), 2):
+            bjobs.append({"msgs": [{"exp": exps[0], "buf": m} for m in ph[i:i + 2]], "want_json": want_json})
+    bres = flowjobs.run_jobs(ctx, drv, P[proto]["jobs"], bjobs, tag="bb_" + proto, timeout=3000)
+    brows, bidx = [], []
+    for ji, (job, r) in enumerate(zip(bjobs, bres)):
+        if r.get("skipped"):
+            continue
+        if "killed" in r:
+            ctx.violation("%s decoder killed the process (%s) on a well-formed history" % (name, r["killed"]), {"job": job})
+            continue
+        brows.append({"ev": "reset"})
+        bidx.append((ji, -1))
+        for mi, (m, x) in enumerate(zip(job["msgs"], r["res"])):
+            if x["st"] == "panic":
+                ctx.violation("%s decoder panicked on a well-formed message: %s" % (name, x["panic"]), {"msg": m})
+                break
+            brows.append({"ev": "msg", "exp": m["exp"], "buf": m["buf"], "res": {"st": x["st"], "hdr": x.get("hdr") or [], "recs": x["recs"]}})
+            bidx.append((ji, mi))
+            ctx.count([proto, "builtin-table", m["buf"]], nontrivial=len(x["recs"]) > 0)
+    ok, bad = flowjobs.validate_trace(ctx, mod, mod + ".cfg", brows, files={"ext.ndjson": ""})
+    if not ok:
+        ji, mi = bidx[bad]
+        ctx.violation("%s (built-in information model, no file installed): the real decoder's result for message %d of a well-formed "
+                      "history is not what the reference collector (spec/%s.tla) computes; real result: st=%s, %d records"
+                      % (name, mi, mod, brows[bad]["res"]["st"], len(brows[bad]["res"]["recs"])),
+                      {"history": bjobs[ji]["msgs"][:mi + 1], "real": brows[bad]["res"]}, key=proto + ":builtin-table")
+    else:
+        ctx.traces_validated += len(bjobs)
     return rows, extfile, jobs, res
 
 
